@@ -251,3 +251,18 @@ def c11(r):
     r.extra['bounds'] = '10 victim programs x (cut | delete | replace) at every token position; prefix with $-variable, table, tuple, 3 functions; dump + probe program after each'
     if rejected < 100:
         raise MachineryFailure('only %d derived texts were rejected: the generator lost its bite' % rejected)
+
+
+@prop('C03')
+def c03(r):
+    r.assumptions += ['IEEE-754 rounding of decimal results is not decided: an operation with a decimal operand is checked for its result type (decimal) only',
+                      'num(i) may round to either neighbouring double when |i| >= 2^53 (as the manual says)',
+                      'integer ** negative exponent is not pinned by the manual']
+    r.mc('MC_Int64', 'MC_Int64.cfg' if r.quick else 'MC_Int64_full.cfg',
+         'limb arithmetic = mathematical definition of every operator for all operand pairs at width 8 (quick: 256 x 21 boundary values)')
+    scs = r.gen('Gen_C03', 'Gen_C03.cfg', timeout=3000)
+    r.exhaustive = True
+    obs = r.conform(scs, trace_module='Trace_C03', trace_cfg='Trace_C03.cfg', workers=16)
+    npairs = sum(len(s['steps'][0]['pairs']) for s in scs)
+    r.extra['operand_pairs_checked'] = npairs
+    r.extra['bounds'] = '64-bit lattice {0,+-1..3,2^k,2^k+-1,-(2^k),-(2^k)+-1,MIN,MIN+1,MAX-1,MAX} for k in %s, squared, x 14 binary operators; shifts x displacements -130..130 and huge; ** x exponents 0..70,100,1000,65537; nulls; int() over 66 boundary doubles; num() over the lattice' % ('1..63' if not r.quick else '{2,7,8,15,16,31,32,33,52,53,62,63}')
